@@ -27,6 +27,14 @@ CHECKS = {
    "Generated regular tables with one identifying character per text node: every character of the output is mapped back to its source cell and must lie between the bars of the columns the cell spans (column boundaries recovered from the output and matched against an independent re-computation of the column geometry), rows/cells in order, every non-empty cell present; stacked layout: one cell per line, contiguous, in order. Bounded-exhaustive small scope as in C05.",
    "Trusted: identifying characters; tablegeo re-computation of colspan remapping; the starved/ragged known-finding class is excluded and counted.",
    "bounded-exhaustive enumeration + property-based testing (proptest), position oracle via identifying characters"),
+ "C07": ("exploration",
+   "Differential oracle on sub-documents through the public API: a wrapper (ul, ol with start, blockquote, dl/dd, h1..h6) around generated content must render as oracle-computed prefixes + the content rendered on its own at width - prefix, item after item (numbers computed by the oracle); plus a sibling law for solid blocks. By induction this defines every nested rendering from leaf paragraphs.",
+   "Trusted: the standard decorators' prefix strings; the inner rendering uses the same public API (a defect that affects wrapped and unwrapped rendering identically is invisible here and is the business of C04/C02/C03).",
+   "property-based testing (proptest; compositional differential oracle on sub-documents)"),
+ "C08": ("exploration",
+   "Generated documents with identifying characters in link texts: the trailing footnote block must un-wrap to `[k]: target_k` for exactly the links with visible content (AST oracle), every link's last character is followed by its `[k]` on the document-order stream (raw-mode rendering for documents with tables), references are 1..n once each, rich annotations separate link text from references, nothing appears when disabled.",
+   "Trusted: digit/punctuation link targets; marker parser skips closing markup and prefixes; deep-empty links are a known finding.",
+   "property-based testing (proptest; reference numbering model + output parser)"),
  "C10": ("exploration",
    "Stateful generation: a history of <=6 renders (route x width) is interpreted against one render tree built once and cloned per render; every result is compared with a fresh one-shot rendering (differential oracle), plus determinism and route/free-function agreement.",
    "Trusted: string_from_read as the reference route; identity colour map.",
